@@ -135,8 +135,28 @@ class ArrBuf:
         return i
 
     def __getitem__(self, i):
+        if isinstance(i, slice):
+            return self._slice(i)
         i = self._chk(i)
         return SymInt(z3.ZeroExt(W - 8, z3.Select(self.arr, T(i))), 0, 255)
+
+    def _slice(self, sl):
+        """buf[a:b] with a symbolic start and a constant length (bulk loads)."""
+        if sl.step not in (None, 1):
+            raise core.Unsupported("stepped slice of an array-backed buffer")
+        start = 0 if sl.start is None else sl.start
+        stop = self.n if sl.stop is None else sl.stop
+        n = z3.simplify(T(stop) - T(start))
+        if not z3.is_bv_value(n):
+            raise core.Unsupported("slice of an array-backed buffer with a symbolic length")
+        n = n.as_signed_long()
+        if n <= 0:
+            return SymBuf([])
+        if n > 64:
+            raise core.Unsupported("long slice of an array-backed buffer")
+        # Python clamps slices to the buffer; inside the buffer it is n consecutive cells
+        core._require(z3.And(T(start) >= 0, T(stop) <= self.n), "slice reaching outside the buffer")
+        return SymBuf([SymInt(z3.ZeroExt(W - 8, z3.Select(self.arr, T(start) + k)), 0, 255) for k in range(n)])
 
     def __setitem__(self, i, v):
         i = self._chk(i)
